@@ -258,8 +258,8 @@ def replace_namespace(root, old_ns, new_ns):
     :return:
     """
     for elem in root.getiterator():
-        # Comments don't have a namespace
-        if elem.tag is not etree.Comment:
+        # Comments and processing instructions don't have a namespace
+        if elem.tag is not etree.Comment and elem.tag is not etree.ProcessingInstruction:
             # handle tag
             qtag = etree.QName(elem)
             if qtag.namespace == old_ns:
